@@ -39,6 +39,8 @@ def build_engine(K, needs_hist, chains, seed, J, init_cfgs, included=(), exclude
     for k in range(1, K + 1):
         # classes with their own error books (picklable); "shared": every kernel is of the same class (one book)
         cls = ProbeKernel if not error_books else BOOKED[1 if error_books == "shared" else k]
+        if error_books == "local":      # a class that cannot be found under its qualified name (defined in a function)
+            cls = _local_class(k)
         ker = cls([keys[k - 1]], kidx=k, cap=cap, needs_history=(k in needs_hist),
                           all_keys=keys, error_table=None if error_tables is None else error_tables[k - 1],
                   tune_error_chains=tune_error_chains)
@@ -93,6 +95,14 @@ def build_engine(K, needs_hist, chains, seed, J, init_cfgs, included=(), exclude
         minimize_transition_infos=minimize_infos,
     )
     return eng, kernels, keys
+
+
+def _local_class(k):
+    from .probes import probe_book
+
+    class LocalProbe(ProbeKernel):
+        error_book = probe_book(k)
+    return LocalProbe
 
 
 def _kernel_event(e, K):
